@@ -38,6 +38,8 @@ class C18(Prop):
             "operations plus seeded sequences of length 3..6; chunker: every file of the index family, chunk counts "
             "1..lines+2; indexer: exhaustive grouped files (1–4 chromosomes × 1–3 lines each) × line-length patterns "
             "(all short; one long line of ≈½ or ≈¾ of the file at every position) × final newline on/off. "
+            "Parallel path: 60 small inputs that are NOT grouped (a run of one chromosome moved into or behind another's), written through "
+            "the real indexer + per-chromosome readers AND through the serial file source: refused by both, or the same file from both. "
             "Non-trivial = a view window that is a proper sub-range with at least one seek, a file with ≥ 2 lines for "
             "the chunker, ≥ 2 chromosomes for the indexer")
     removable = ("OP",)
@@ -106,7 +108,76 @@ class C18(Prop):
                         c.tags.add("nt")
                     out.append(c)
                     k += 1
+        # --- consequence for the parallel path: an input that is NOT grouped (a foreign run inside a chromosome's run) must be
+        # reported — by the indexer or by the per-chromosome readers — never converted silently with records missing
+        import bbgen
+        for g in range(300 if tier == "thorough" else 60):
+            r = rng.fork(f"ungrouped{g}")
+            bed = r.chance(1, 2)
+            names = ["chr1", "chr2", "chr3", "chr4"][: r.range(2, 4)]
+            rows = []
+            for nm in names:
+                pos = r.range(0, 30)
+                for _ in range(r.range(1, 4)):
+                    ln = r.choice([1, 5, 10, 100])
+                    rows.append((nm, pos, pos + ln))
+                    pos += ln + r.choice([0, 3, 50])
+            # move a short run of one chromosome into (or behind) the run of another one
+            src_nm = r.choice(names)
+            mine = [x for x in rows if x[0] == src_nm]
+            take = mine[-r.range(1, len(mine)):] if len(mine) > 1 and r.chance(1, 2) else mine[-1:]
+            rest = [x for x in rows if x not in take]
+            others = [i for i, x in enumerate(rest) if x[0] != src_nm]
+            if not others:
+                continue
+            at = r.choice(others) + r.choice([0, 1])
+            # a position that splits a run or puts the rows away from their own run
+            new_rows = rest[:at] + take + rest[at:]
+            runs_seq = [x[0] for i, x in enumerate(new_rows) if i == 0 or new_rows[i - 1][0] != x[0]]
+            if len(runs_seq) == len(set(runs_seq)):
+                continue                                   # still grouped
+            o = {"compress": r.choice([0, 1]), "ips": r.choice([1, 1024]), "bs": 256, "zooms": r.choice(["none", "10"]), "pass": r.choice([1, 2]),
+                 "inmem": r.choice([0, 1]), "rt": "mt", "threads": r.choice([2, 4]), "chan": 100, "src": "parix", "sort": r.choice(["all", "start"])}
+            lines = [bbgen.opt_line(o)] + [f"CHROM {n} 100000" for n in names]
+            for (nm, a, b) in new_rows:
+                lines.append(f"E {nm} {a} {b} -" if bed else f"V {nm} {a} {b} {bbgen.f32bits(1.0)}")
+            c = CaseT(f"ug{k}", "bed" if bed else "wig", [], lines, {"ungrouped_parallel", "nt"})
+            out.append(c)
+            # the same rows through the serial file source: the reference for "the record stream the serial path sees"
+            o2 = dict(o)
+            o2["src"] = "file"
+            out.append(CaseT(f"ug{k}s", c.kind, [], [bbgen.opt_line(o2)] + lines[1:], {"ungrouped_serial"}))
+            self.pairs = getattr(self, "pairs", []) + [(f"ug{k}", f"ug{k}s")]
+            k += 1
         return out
+
+    def extra_checks(self, rep, tier, rng, workdir):
+        impl = getattr(self, "_last_impl", {})
+        cases = {c.id: c for c in getattr(self, "_last_cases", [])}
+        first = lambda il, t: next((l for l in il if l.startswith(t)), None)
+        n = 0
+        for par, ser in getattr(self, "pairs", []):
+            if par not in impl or ser not in impl:
+                continue
+            n += 1
+            rp, rs = (impl[par] or ["R missing"])[0], (impl[ser] or ["R missing"])[0]
+            bad = None
+            if rs.startswith("R err") and not rp.startswith("R err"):
+                bad = f"the serial path refuses this input (`{rs}`), the per-chromosome-parallel path converts it (`{rp}`)"
+            elif rs == "R ok" and rp == "R ok" and first(impl[par], "BYTES") != first(impl[ser], "BYTES"):
+                bad = (f"both paths convert this input, to different files (`{first(impl[ser], 'BYTES')}` serial, `{first(impl[par], 'BYTES')}` parallel): "
+                       "the parallel path did not see the record stream the serial path sees")
+            elif rs == "R ok" and rp != "R ok":
+                bad = f"the serial path converts this input, the per-chromosome-parallel path does not (`{rp}`)"
+            if bad and not any("ungrouped" in v[0] for v in rep.violations):
+                rep.violation(f"ungrouped_{par}.case", cases[ser].text() + cases[par].text() + f"# {bad}\n# replay: ./check C18 --replay runs both cases\n")
+        rep.coverage["ungrouped_inputs_serial_vs_parallel"] = n
+        rep.evals += n
+
+    def compare(self, case, il, ml):
+        if case.tags & {"ungrouped_parallel", "ungrouped_serial"}:
+            return None                      # judged pairwise: the model's sources see the rows in file order
+        return super().compare(case, il, ml)
 
     def nontrivial(self, case, il):
         return "nt" in case.tags
@@ -114,6 +185,8 @@ class C18(Prop):
     def oracle(self, case, il):
         if any(l.startswith(("R panic", "R hang", "R crashed")) for l in il):
             return "call did not return normally: " + il[0][:60]
+        if case.tags & {"ungrouped_parallel", "ungrouped_serial"}:
+            return None                      # judged pairwise in extra_checks (serial vs parallel on the same rows)
         if case.kind == "fileview":
             data = unhex(case.records("TEXT")[0][1])
             a, b = int(case.args[0]), min(int(case.args[1]), len(data))
